@@ -100,6 +100,8 @@ class Ctx:
 
     def violation(self, what, replay_text, found_input=True, key=None):
         """Registers a violation; writes the replay file. Returns its path."""
+        if len(what) > 700:
+            what = what[:500] + " ...[%d characters omitted]... " % (len(what) - 650) + what[-150:]
         if key is not None:
             # one replay per failure class: later cases of the same class are only counted
             if key in self._keys:
